@@ -119,49 +119,57 @@ Definition upd_of (A : list lnode) (i : nat) : ref * Z :=
 Lemma LInv_nodes_split z A B : LInv z (A ++ B) -> Forall (node_ok z) A /\ Forall (node_ok z) B.
 Proof. intros H. apply Forall_app. apply (inv_nodes z _ H). Qed.
 
+(* one lane: from update[i+1] the inner loop reaches update[i] *)
+Lemma advance_level z A B P i : LInv z (A ++ B) ->
+  holds_from P 0 A -> fails_from P (Z.of_nat (length A)) B -> (i < llevel z)%nat ->
+  advance (fuel_of z) z i P (fst (upd_of A (S i))) (snd (upd_of A (S i))) = Some (upd_of A i).
+Proof.
+  intros HI Hh Hf Hi. destruct (LInv_nodes_split z A B HI) as [HnA HnB].
+  assert (Hlane : lane_ok (col z i) i Head 0 (A ++ B)) by (apply (inv_lanes z _ HI); lia).
+  assert (Hfuel : (length (A ++ B) < fuel_of z)%nat).
+  { unfold fuel_of. rewrite (inv_len z _ HI). lia. }
+  rewrite app_length in Hfuel.
+  unfold upd_of at 1 2. cbn [fst snd].
+  destruct (lane_end (S i) Head 0 A) as [u d2] eqn:Ee. cbn [fst snd].
+  destruct (lane_end_decomp _ _ _ _ _ _ Ee) as [(-> & -> & Hall)|(A1 & n & A2 & EA & -> & Hn & -> & Hall)].
+  - rewrite (advance_spec z i P B HnB A Head 0 (Z.of_nat (length A) - (0 + Z.of_nat (length A))) (fuel_of z)); auto.
+    + unfold upd_of. f_equal. f_equal. lia.
+    + replace (Z.of_nat (length A) - (0 + Z.of_nat (length A)) + 0) with 0 by lia. exact Hh.
+    + replace (Z.of_nat (length A) - (0 + Z.of_nat (length A)) + 0 + Z.of_nat (length A)) with (Z.of_nat (length A)) by lia. exact Hf.
+    + lia.
+  - assert (EA' : A = (A1 ++ [n]) ++ A2) by (rewrite <- app_assoc; exact EA).
+    assert (Hend : lane_end i Head 0 A = lane_end i (nref n) 0 A2).
+    { rewrite EA', lane_end_app, lane_end_snoc by lia. reflexivity. }
+    assert (Hl2 : lane_ok (col z i) i (nref n) 0 (A2 ++ B)).
+    { rewrite EA', <- app_assoc in Hlane. apply lane_ok_app in Hlane.
+      rewrite lane_end_snoc in Hlane by lia. exact (proj2 Hlane). }
+    assert (HnA2 : Forall (node_ok z) A2).
+    { rewrite EA in HnA. apply Forall_app in HnA. destruct HnA as [_ H]. inversion H; assumption. }
+    assert (Hlen : Z.of_nat (length A) = Z.of_nat (length A1) + 1 + Z.of_nat (length A2)).
+    { rewrite EA, app_length. simpl length. lia. }
+    rewrite (advance_spec z i P B HnB A2 (nref n) 0 (Z.of_nat (length A) - Z.of_nat (length A2)) (fuel_of z)); auto.
+    + unfold upd_of. rewrite Hend. f_equal. f_equal. lia.
+    + rewrite EA' in Hh. apply holds_from_app in Hh. destruct Hh as [_ Hh2].
+      rewrite app_length in Hh2. simpl length in Hh2.
+      replace (Z.of_nat (length A) - Z.of_nat (length A2) + 0) with (0 + Z.of_nat (length A1 + 1)) by lia.
+      exact Hh2.
+    + replace (Z.of_nat (length A) - Z.of_nat (length A2) + 0 + Z.of_nat (length A2)) with (Z.of_nat (length A)) by lia.
+      exact Hf.
+    + rewrite EA, app_length in Hfuel. simpl length in Hfuel. lia.
+Qed.
+
 Lemma search_spec z A B P : LInv z (A ++ B) ->
   holds_from P 0 A -> fails_from P (Z.of_nat (length A)) B ->
   forall lv x r, (lv <= llevel z)%nat -> (x, r) = upd_of A lv ->
   exists arr, search z P lv x r = Some arr /\ length arr = lv /\
               forall i, (i < lv)%nat -> arr_get arr i = upd_of A i.
 Proof.
-  intros HI Hh Hf. destruct (LInv_nodes_split z A B HI) as [HnA HnB].
+  intros HI Hh Hf.
   induction lv as [|i IH]; intros x r Hlv Hxr.
   - exists []. repeat split; auto. intros; lia.
   - cbn [search].
-    assert (Hlane : lane_ok (col z i) i Head 0 (A ++ B)) by (apply (inv_lanes z _ HI); lia).
-    assert (Hfuel : (length (A ++ B) < fuel_of z)%nat).
-    { unfold fuel_of. rewrite (inv_len z _ HI). lia. }
-    rewrite app_length in Hfuel.
     assert (Hadv : advance (fuel_of z) z i P x r = Some (upd_of A i)).
-    { unfold upd_of in Hxr. injection Hxr as Hx Hr.
-      destruct (lane_end (S i) Head 0 A) as [u d2] eqn:Ee. simpl in Hx, Hr.
-      destruct (lane_end_decomp _ _ _ _ _ _ Ee) as [(-> & -> & Hall)|(A1 & n & A2 & EA & -> & Hn & -> & Hall)].
-      - subst x r. rewrite (advance_spec z i P B HnB A Head 0 (Z.of_nat (length A) - (0 + Z.of_nat (length A))) (fuel_of z)); auto.
-        + unfold upd_of. f_equal. f_equal. lia.
-        + replace (Z.of_nat (length A) - (0 + Z.of_nat (length A)) + 0) with 0 by lia. exact Hh.
-        + replace (Z.of_nat (length A) - (0 + Z.of_nat (length A)) + 0 + Z.of_nat (length A)) with (Z.of_nat (length A)) by lia. exact Hf.
-        + lia.
-      - subst x r.
-        assert (EA' : A = (A1 ++ [n]) ++ A2) by (rewrite <- app_assoc; exact EA).
-        assert (Hend : lane_end i Head 0 A = lane_end i (nref n) 0 A2).
-        { rewrite EA', lane_end_app, lane_end_snoc by lia. reflexivity. }
-        assert (Hl2 : lane_ok (col z i) i (nref n) 0 (A2 ++ B)).
-        { rewrite EA', <- app_assoc in Hlane. apply lane_ok_app in Hlane.
-          rewrite lane_end_snoc in Hlane by lia. exact (proj2 Hlane). }
-        assert (HnA2 : Forall (node_ok z) A2).
-        { rewrite EA in HnA. apply Forall_app in HnA. destruct HnA as [_ H]. inversion H; assumption. }
-        assert (Hlen : Z.of_nat (length A) = Z.of_nat (length A1) + 1 + Z.of_nat (length A2)).
-        { rewrite EA, app_length. simpl length. lia. }
-        rewrite (advance_spec z i P B HnB A2 (nref n) 0 (Z.of_nat (length A) - Z.of_nat (length A2)) (fuel_of z)); auto.
-        + unfold upd_of. rewrite Hend. f_equal. f_equal. lia.
-        + rewrite EA' in Hh. apply holds_from_app in Hh. destruct Hh as [_ Hh2].
-          rewrite app_length in Hh2. simpl length in Hh2.
-          replace (Z.of_nat (length A) - Z.of_nat (length A2) + 0) with (0 + Z.of_nat (length A1 + 1)) by lia.
-          exact Hh2.
-        + replace (Z.of_nat (length A) - Z.of_nat (length A2) + 0 + Z.of_nat (length A2)) with (Z.of_nat (length A)) by lia.
-          exact Hf.
-        + rewrite EA, app_length in Hfuel. simpl length in Hfuel. lia. }
+    { pose proof (advance_level z A B P i HI Hh Hf ltac:(lia)) as H. rewrite <- Hxr in H. exact H. }
     rewrite Hadv. unfold upd_of at 1.
     destruct (IH (fst (lane_end i Head 0 A)) (Z.of_nat (length A) - snd (lane_end i Head 0 A)) ltac:(lia) eq_refl)
       as (arr & -> & Hlen & Harr).
